@@ -885,14 +885,25 @@ func (h *H) monitor(op string, before, after snap, paidWho int, paid int64, spec
 		}
 	}
 	// what the proposals that PASSED in this block configured (queue order = execution order), for checkConfigured
-	for _, ts := range specs {
-		ap, ok := after.props[ts.pid]
-		if bp := before.props[ts.pid]; !ok || bp.status != "voting" || ap.status != "passed" {
-			continue
+	{
+		var pids []uint64
+		for pid, ap := range after.props {
+			if bp, ok := before.props[pid]; ok && bp.status == "voting" && ap.status == "passed" {
+				pids = append(pids, pid)
+			}
 		}
-		for _, m := range h.props[ts.pid] {
-			if um, isUpd := m.real.(*fxgovtypes.MsgUpdateCustomParams); isUpd {
-				h.setConfigured(um)
+		sort.Slice(pids, func(i, j int) bool {
+			a, b := before.props[pids[i]], before.props[pids[j]]
+			if a.vEnd != nil && b.vEnd != nil && !a.vEnd.Equal(*b.vEnd) {
+				return a.vEnd.Before(*b.vEnd)
+			}
+			return pids[i] < pids[j]
+		})
+		for _, pid := range pids {
+			for _, m := range h.props[pid] {
+				if um, isUpd := m.real.(*fxgovtypes.MsgUpdateCustomParams); isUpd {
+					h.setConfigured(um)
+				}
 			}
 		}
 	}
@@ -2015,47 +2026,56 @@ func TestC15(t *testing.T) {
 		h := newH(t, out, rng, 3, 4)
 		h.start(facts)
 		h.scenarioExpedited(cp)
+		h.genesisRoundTrip()
 	}
 	{
 		h := newH(t, out, rng, 3, 4)
 		h.start(facts)
 		h.scenarioEGF()
+		h.genesisRoundTrip()
 	}
 	{
 		h := newH(t, out, rng, 3, 4)
 		h.start(facts)
 		h.scenarioLegacy()
+		h.genesisRoundTrip()
 	}
 	for _, sl := range []bool{false, true} {
 		h := newH(t, out, rng, 4, 4)
 		h.start(facts)
 		h.scenarioTally(sl)
+		h.genesisRoundTrip()
 	}
 	{
 		h := newH(t, out, rng, 3, 4)
 		h.start(facts)
 		h.scenarioTx()
+		h.genesisRoundTrip()
 	}
 	for i, c := range [][2]int64{{0, 1}, {1, 1}, {1, 3}} {
 		h := newH(t, out, rng, 3, 4)
 		h.start(facts)
 		h.scenarioCancel(c, []int{0, 1, 5}[i])
+		h.genesisRoundTrip()
 	}
 	{
 		h := newH(t, out, rng, 3, 4)
 		h.start(facts)
 		h.scenarioMidFlight()
+		h.genesisRoundTrip()
 	}
 	{
 		h := newH(t, out, rng, 3, 4)
 		h.start(facts)
 		h.scenarioSameBlock()
+		h.genesisRoundTrip()
 	}
 	nSeq := hx.N(240, 1500)
 	for i := 0; i < nSeq; i++ {
 		h := newH(t, out, rng, 2+rng.Intn(4), 4)
 		h.start(facts)
 		h.randomSequence(40 + rng.Intn(40))
+		h.genesisRoundTrip()
 	}
 	for k, v := range out.Stats.Hist {
 		if v > 0 {
